@@ -41,6 +41,8 @@ def show(t):
         return f"slogdet({show(t[2])})[{t[1]}]"
     if k == "famlist":
         return f"[{show(t[1])} for M in Ms]"
+    if k == "filtered":
+        return f"{show(t[2])} if {t[1]}"
     if k == "fprod":
         return f"Π[{show(t[1])}]"
     if k == "fsum":
@@ -172,7 +174,11 @@ def snorm(t):
                 pass
         return ("pow", b, e)
     if k in ("fprod", "fsum", "famlist"):
-        return (k, snorm(t[1])) + t[2:]
+        inner = snorm(t[1])
+        # dropping Unitary factors from a SUM OF LOG-MAGNITUDES drops zeros only (|det U| = 1); nothing of the kind holds for the signs
+        if k == "fsum" and inner[0] == "filtered" and inner[1] in ("notM.isa(Unitary)", "notM.isa(cola.Unitary)") and inner[2] == ("sld", 1, VAR):
+            inner = inner[2]
+        return (k, inner) + t[2:]
     return (k, ) + tuple(snorm(x) if isinstance(x, tuple) else x for x in t[1:])
 
 
@@ -345,6 +351,9 @@ class ScalarEval(AbsInt):
                     return ("tuple", tuple(("famlist", e) for e in v[1][1]))
                 if v[0] == "famlist" and v[1][0] == "sldpair":
                     return ("tuple", (("famlist", ("sld", 0, v[1][1])), ("famlist", ("sld", 1, v[1][1]))))
+                if v[0] == "famlist" and v[1][0] == "filtered" and v[1][2][0] == "sldpair":
+                    x = v[1][2][1]
+                    return ("tuple", (("famlist", ("filtered", v[1][1], ("sld", 0, x))), ("famlist", ("filtered", v[1][1], ("sld", 1, x)))))
             else:
                 bodies = []
                 for a in args:
@@ -393,8 +402,18 @@ class ScalarEval(AbsInt):
         return ("opaque", f"{fname}()")
 
     def other(self, node, ctx):
-        if isinstance(node, (ast.ListComp, ast.GeneratorExp)) and len(node.generators) == 1 and not node.generators[0].ifs:
+        if isinstance(node, (ast.ListComp, ast.GeneratorExp)) and len(node.generators) == 1 and len(node.generators[0].ifs) <= 1:
             g = node.generators[0]
+            pred = None
+            if g.ifs and isinstance(g.target, ast.Name):
+                # a filtered family: the predicate is kept as text over the family variable M
+                t = ast.parse(ast.unparse(g.ifs[0]), mode="eval").body
+                for n_ in ast.walk(t):
+                    if isinstance(n_, ast.Name) and n_.id == g.target.id:
+                        n_.id = "M"
+                pred = ast.unparse(t).replace(" ", "")
+            elif g.ifs:
+                return ("opaque", "filtered comprehension")
             it = self.ev(g.iter, ctx)
             env = dict(ctx.env)
             if it[0] == "famlist" and isinstance(g.target, ast.Name):
@@ -408,6 +427,12 @@ class ScalarEval(AbsInt):
             else:
                 return ("opaque", "comprehension over " + show(it))
             body = self.ev(node.elt, AbsInt.Ctx(ctx.fi, env, ctx.depth + 1))
+            if pred is not None:
+                if it[0] == "famlist" and it[1] == VAR and body == VAR:
+                    return ("famlist", VAR, pred)  # the operand's parts themselves, filtered: [M for M in A.Ms if p(M)]
+                return ("famlist", ("filtered", pred, body))
+            if it[0] == "famlist" and len(it) == 3:
+                return ("famlist", ("filtered", it[2], body))
             return ("famlist", body)
         if isinstance(node, ast.List):
             return ("list", tuple(self.ev(x, ctx) for x in node.elts))
